@@ -23,7 +23,7 @@ def slice_case(rng, w, n, signed):
 
 
 def gen(rng, tier):
-    reps = 80 if tier == "thorough" else 14
+    reps = 80 if tier == "thorough" else 40
     for cfg in cfgs(tier):
         w, n = wn(cfg)
         if n > 40:
